@@ -189,12 +189,20 @@ func (gtidSet MariadbGTIDSet) AddGTID(other GTID) GTIDSet {
 	for i, gtid := range gtidSet {
 		if mdbOther.Domain == gtid.Domain {
 			if mdbOther.Sequence > gtid.Sequence {
-				gtidSet[i] = mdbOther
+				// Work on a copy: the set this is added to must stay as it was.
+				newSet := make(MariadbGTIDSet, len(gtidSet))
+				copy(newSet, gtidSet)
+				newSet[i] = mdbOther
+				return newSet
 			}
 			return gtidSet
 		}
 	}
-	return append(gtidSet, mdbOther)
+	// Never append in place: two sets derived from the same set would share
+	// (and overwrite) the appended position.
+	newSet := make(MariadbGTIDSet, len(gtidSet), len(gtidSet)+1)
+	copy(newSet, gtidSet)
+	return append(newSet, mdbOther)
 }
 
 func init() {
